@@ -300,6 +300,28 @@ class FloatArith (F : Type) where
   /-- `int(x)`: truncation toward zero (ValueError / OverflowError on nan / inf are not modelled) -/
   toInt : F → Int
 
+/-- inside `with np.errstate(invalid="raise")`: whether numpy signals `invalid` for an arithmetic operation on these
+    operands (inf - inf, 0 * inf, 0 / 0, ...; never for two Python floats, whose arithmetic does not consult the numpy
+    error state).  Uninterpreted, like the operations themselves.  (Comparisons, `abs`, `min`, `max` do not signal;
+    overflow and division of a non-zero number by zero are other flags.) -/
+class FloatInvalid (F : Type) where
+  add : F → F → Bool
+  sub : F → F → Bool
+  mul : F → F → Bool
+  div : F → F → Bool
+  powNat : F → Nat → Bool
+
+/-! the float operations inside `with np.errstate(invalid="raise")` -/
+namespace Fp
+variable {F : Type} [FloatOps F] [FloatArith F] [FloatInvalid F]
+def chk (invalid : Bool) (v : F) : M F := if invalid then throw (Exc.named "FloatingPointError") else pure v
+def add (a b : F) : M F := chk (FloatInvalid.add a b) (FloatArith.add a b)
+def sub (a b : F) : M F := chk (FloatInvalid.sub a b) (FloatOps.sub a b)
+def mul (a b : F) : M F := chk (FloatInvalid.mul a b) (FloatOps.mul a b)
+def div (a b : F) : M F := chk (FloatInvalid.div a b) (FloatArith.div a b)
+def powNat (a : F) (n : Nat) : M F := chk (FloatInvalid.powNat a n) (FloatArith.powNat a n)
+end Fp
+
 /-- `numpy.datetime64` / `numpy.timedelta64` arithmetic of the translated code (uninterpreted) -/
 class TimeOps (T TD : Type) where
   /-- `t1 - t2` -/
@@ -312,6 +334,321 @@ class TimeOps (T TD : Type) where
   divInt : TD → Int → TD
   /-- `np.timedelta64(k, unit)` -/
   td : Int → String → TD
+
+/-! ### numpy / datetime values of the time-handling code: tagged values and the operations the translated code applies
+
+What kind of object a value is decides which branch the code takes (`isinstance`, `hasattr`, `np.datetime64(x)` raising
+ValueError on arrays); the integer tick arithmetic of datetime64 / timedelta64 is interpreted (unbounded `Int`: the
+int64 range and NaT are not modelled); float arithmetic stays uninterpreted (`FloatOps` / `FloatArith`).  Every
+operation is checked against the running numpy by harness/pytrans_selftest.py.  An operation applied to a kind of
+value for which no behaviour has been recorded yields `Exc.unmodelled`. -/
+namespace Np
+
+/-- `tzinfo` of an aware datetime: `dt.timezone.utc` (or an object equal to it) / any other tzinfo object with its UTC
+    offset in microseconds (`zoneinfo.ZoneInfo("UTC")` is `other 0`: it is not equal to `dt.timezone.utc`) -/
+inductive Tz | utc | other (offsetUs : Int)
+deriving DecidableEq, Repr
+
+inductive TKind | dt | td
+deriving DecidableEq, Repr
+
+inductive NumDT | f32 | f64 | i64
+deriving DecidableEq, Repr
+
+/-- a numpy scalar, or an array (`lazy`: a dask array) of the given shape (`[]`: 0-d) -/
+inductive Cont | scalar | arr (lazy : Bool) (shape : List Nat)
+deriving DecidableEq, Repr
+
+/-- tagged values.  A scalar holds its one element as a singleton payload; array payloads are in C order. -/
+inductive Val (F : Type)
+  | pyint (n : Int)
+  | pyfloat (x : F)
+  /-- `datetime.datetime`: microseconds of its wall clock since 1970-01-01T00:00, and its `tzinfo` -/
+  | datetime (us : Int) (tz : Option Tz)
+  /-- `numpy.datetime64` / `numpy.timedelta64` scalar or array of one unit: tick counts -/
+  | time (k : TKind) (unit : Str) (c : Cont) (ticks : List Int)
+  /-- numpy float32 / float64 / int64 scalar or array (an element is held as the `F` of its value) -/
+  | num (d : NumDT) (c : Cont) (xs : List F)
+  /-- object ndarray of naive `datetime.datetime` (microseconds since 1970 each) -/
+  | objArr (shape : List Nat) (us : List Int)
+  | memoryview
+deriving Repr
+
+instance : Truthy Tz := ⟨fun _ => true⟩
+
+/-- attoseconds per tick of the numpy units of fixed length (`Y` and `M` have none) -/
+def unitTable : List (Str × Nat) :=
+  [(['a', 's'], 1), (['f', 's'], 1000), (['p', 's'], 1000000), (['n', 's'], 1000000000), (['u', 's'], 1000000000000),
+   (['m', 's'], 1000000000000000), (['s'], 1000000000000000000), (['m'], 60000000000000000000),
+   (['h'], 3600000000000000000000), (['D'], 86400000000000000000000), (['W'], 604800000000000000000000)]
+
+def unitAs (u : Str) : M Nat :=
+  match dictGet? unitTable u with
+  | some n => pure n
+  | none => throw Exc.unmodelled
+
+/-- the factor between two units, `a` attoseconds per tick the coarser: numpy refuses (OverflowError) a factor of 2^56
+    or more (`get_datetime_units_factor`) -/
+def unitFactor (a b : Nat) : M Nat :=
+  if a / b ≥ 72057594037927936 then throw (Exc.named "OverflowError") else pure (a / b)
+
+/-- ticks of unit `u` as ticks of unit `v`: exact towards a finer unit, floor division towards a coarser one (what
+    `astype` and the operators do) -/
+def convTicks (u v : Str) (t : Int) : M Int := do
+  let a ← unitAs u
+  let b ← unitAs v
+  if a ≥ b then pure (t * (((← unitFactor a b) : Nat) : Int)) else pure (t / (((← unitFactor b a) : Nat) : Int))
+
+/-- the finer of two units (what a binary operation on datetime64 / timedelta64 of two units works in) -/
+def finer (u v : Str) : M Str := do
+  let a ← unitAs u
+  let b ← unitAs v
+  pure (if a ≤ b then u else v)
+
+/-- container of a ufunc result: a numpy *scalar* when every operand was 0-d and none was lazy -/
+def mkCont (lazy : Bool) (shape : List Nat) : Cont :=
+  if !lazy && shape.isEmpty then Cont.scalar else Cont.arr lazy shape
+
+def Cont.lazy : Cont → Bool
+  | .arr l _ => l
+  | .scalar => false
+
+def Cont.shape : Cont → List Nat
+  | .arr _ s => s
+  | .scalar => []
+
+/-- elementwise pairing of two payloads: equal shapes, or one side 0-d (broadcast); other broadcasts are not modelled -/
+def bcast {α β : Type} (c1 c2 : Cont) (xs : List α) (ys : List β) : M (Cont × List (α × β)) :=
+  let lz := c1.lazy || c2.lazy
+  if c1.shape = c2.shape then pure (mkCont lz c1.shape, xs.zip ys)
+  else match c1.shape, xs, c2.shape, ys with
+    | [], [x], s, ys => pure (mkCont lz s, ys.map fun y => (x, y))
+    | s, xs, [], [y] => pure (mkCont lz s, xs.map fun x => (x, y))
+    | _, _, _, _ => throw Exc.unmodelled
+
+/-- `np.datetime64(x)` -/
+def datetime64 {F : Type} : Val F → M (Val F)
+  | .datetime us none => pure (.time .dt ['u', 's'] .scalar [us])
+  | .datetime us (some .utc) => pure (.time .dt ['u', 's'] .scalar [us])
+  | .datetime us (some (.other off)) => pure (.time .dt ['u', 's'] .scalar [us - off])
+  | .time .dt u .scalar ts => pure (.time .dt u .scalar ts)
+  | .time .dt u (.arr false []) ts => pure (.time .dt u .scalar ts)
+  | .time _ _ _ _ => throw Exc.ValueError
+  | .num _ _ _ => throw Exc.ValueError
+  | .objArr _ _ => throw Exc.ValueError
+  | .pyint _ => throw Exc.ValueError
+  | .pyfloat _ => throw Exc.ValueError
+  | .memoryview => throw Exc.unmodelled
+
+/-- days from 1970-01-01 of a proleptic-Gregorian date (the algorithm of numpy's datetime parser) -/
+def daysFromCivil (y : Int) (m d : Nat) : Int :=
+  let y' : Int := if m ≤ 2 then y - 1 else y
+  let era : Int := if y' ≥ 0 then y' / 400 else -((399 - y') / 400)
+  let yoe : Int := y' - era * 400
+  let mp : Int := ((m : Int) + 9) % 12
+  let doy : Int := (153 * mp + 2) / 5 + (d : Int) - 1
+  let doe : Int := yoe * 365 + yoe / 4 - yoe / 100 + doy
+  era * 146097 + doe - 719468
+
+def asciiNat : Str → Option Nat
+  | [] => none
+  | s => s.foldl (fun acc c => match acc with
+      | none => none
+      | some n => if '0' ≤ c ∧ c ≤ '9' then some (n * 10 + (c.toNat - 48)) else none) (some 0)
+
+def daysInMonth (y m : Nat) : Nat :=
+  if m = 2 then (if (y % 4 = 0 ∧ y % 100 ≠ 0) ∨ y % 400 = 0 then 29 else 28)
+  else if m = 4 ∨ m = 6 ∨ m = 9 ∨ m = 11 then 30 else 31
+
+/-- `np.datetime64("<literal>")` for the literals `YYYY-MM-DD` (unit D), `YYYY-MM-DDThh:mm` (unit m) and
+    `YYYY-MM-DDThh:mm:ss` (unit s) -/
+def datetime64Iso {F : Type} (s : Str) : M (Val F) := do
+  let some y := asciiNat (s.take 4) | throw Exc.unmodelled
+  let some mo := asciiNat ((s.drop 5).take 2) | throw Exc.unmodelled
+  let some d := asciiNat ((s.drop 8).take 2) | throw Exc.unmodelled
+  if (s.drop 4).take 1 ≠ ['-'] ∨ (s.drop 7).take 1 ≠ ['-'] then throw Exc.unmodelled
+  if mo < 1 ∨ 12 < mo ∨ d < 1 ∨ daysInMonth y mo < d then throw Exc.ValueError
+  let days := daysFromCivil (y : Int) mo d
+  if s.length = 10 then return .time .dt ['D'] .scalar [days]
+  let some h := asciiNat ((s.drop 11).take 2) | throw Exc.unmodelled
+  let some mi := asciiNat ((s.drop 14).take 2) | throw Exc.unmodelled
+  if (s.drop 10).take 1 ≠ ['T'] ∨ (s.drop 13).take 1 ≠ [':'] then throw Exc.unmodelled
+  if 23 < h ∨ 59 < mi then throw Exc.ValueError
+  let mins := days * 1440 + ((h * 60 + mi : Nat) : Int)
+  if s.length = 16 then return .time .dt ['m'] .scalar [mins]
+  let some sec := asciiNat ((s.drop 17).take 2) | throw Exc.unmodelled
+  if (s.drop 16).take 1 ≠ [':'] then throw Exc.unmodelled
+  if 59 < sec then throw Exc.ValueError
+  if s.length = 19 then return .time .dt ['s'] .scalar [mins * 60 + (sec : Int)]
+  throw Exc.unmodelled
+
+/-- `"datetime64[u]"` / `"timedelta64[u]"` -/
+def parseDtype (s : Str) : Option (TKind × Str) :=
+  let body (p : Str) : Option Str :=
+    if p.isPrefixOf s ∧ s.getLast? = some ']' then some ((s.drop p.length).dropLast) else none
+  match body ['d', 'a', 't', 'e', 't', 'i', 'm', 'e', '6', '4', '['] with
+  | some u => some (.dt, u)
+  | none => match body ['t', 'i', 'm', 'e', 'd', 'e', 'l', 't', 'a', '6', '4', '['] with
+    | some u => some (.td, u)
+    | none => none
+
+/-- `x.astype("datetime64[u]")` / `x.astype("timedelta64[u]")` -/
+def astype {F : Type} (v : Val F) (dtype : Str) : M (Val F) := do
+  match v with
+  | .pyint _ => throw Exc.AttributeError
+  | .pyfloat _ => throw Exc.AttributeError
+  | .datetime _ _ => throw Exc.AttributeError
+  | .memoryview => throw Exc.AttributeError
+  | .time k u c ts =>
+    let some (k', u') := parseDtype dtype | throw Exc.unmodelled
+    if k ≠ k' then throw Exc.unmodelled
+    let _ ← convTicks u u' 0      -- (the factor between the units is checked even when there is no element)
+    let ts' ← ts.mapM (convTicks u u')
+    pure (.time k u' c ts')
+  | .objArr sh us =>
+    let some (k', u') := parseDtype dtype | throw Exc.unmodelled
+    if k' ≠ .dt then throw Exc.unmodelled
+    let _ ← convTicks ['u', 's'] u' 0
+    let ts' ← us.mapM (convTicks ['u', 's'] u')
+    pure (.time .dt u' (.arr false sh) ts')
+  | .num _ _ _ => throw Exc.unmodelled
+
+/-- `hasattr(x, name)` for the attribute names the translated code asks for -/
+def hasattr {F : Type} (v : Val F) (name : Str) : M Bool :=
+  let arrayish := [['s', 'h', 'a', 'p', 'e'], ['d', 't', 'y', 'p', 'e'], ['a', 's', 't', 'y', 'p', 'e']]
+  let data := ['d', 'a', 't', 'a']
+  let af := ['_', '_', 'a', 'r', 'r', 'a', 'y', '_', 'f', 'u', 'n', 'c', 't', 'i', 'o', 'n', '_', '_']
+  let dtattrs := [['t', 'z', 'i', 'n', 'f', 'o'], ['r', 'e', 'p', 'l', 'a', 'c', 'e']]
+  if !(arrayish ++ [data, af] ++ dtattrs).contains name then throw Exc.unmodelled else
+  let ofCont (c : Cont) : Bool :=
+    match c with
+    | .scalar => arrayish.contains name || name == data
+    | .arr lazy _ => arrayish.contains name || name == af || (name == data && !lazy)
+  match v with
+  | .pyint _ => pure false
+  | .pyfloat _ => pure false
+  | .datetime _ _ => pure (dtattrs.contains name)
+  | .time _ _ c _ => pure (ofCont c)
+  | .num _ c _ => pure (ofCont c)
+  | .objArr _ _ => pure (ofCont (.arr false []))
+  | .memoryview => throw Exc.unmodelled
+
+/-- `isinstance(x, float)`: Python float and numpy.float64 (a subclass of float) -/
+def isinstanceFloat {F : Type} : Val F → Bool
+  | .pyfloat _ => true
+  | .num .f64 .scalar _ => true
+  | _ => false
+
+/-- `isinstance(x, dt.datetime)` -/
+def isinstanceDatetime {F : Type} : Val F → Bool
+  | .datetime _ _ => true
+  | _ => false
+
+/-- `x.tzinfo` -/
+def tzinfo {F : Type} : Val F → M (Option Tz)
+  | .datetime _ tz => pure tz
+  | .memoryview => throw Exc.unmodelled
+  | _ => throw Exc.AttributeError
+
+/-- `x.replace(tzinfo=None)` -/
+def replaceTzinfoNone {F : Type} : Val F → M (Val F)
+  | .datetime us _ => pure (.datetime us none)
+  | .memoryview => throw Exc.unmodelled
+  | _ => throw Exc.AttributeError
+
+/-- `np.asanyarray(x, dtype=np.timedelta64)`: a timedelta64 scalar becomes a 0-d array, a dask array is computed -/
+def asanyarrayTimedelta {F : Type} : Val F → M (Val F)
+  | .time .td u c ts => pure (.time .td u (.arr false c.shape) ts)
+  | _ => throw Exc.unmodelled
+
+/-- `np.datetime_data(x.dtype)[0]` -/
+def datetimeUnit {F : Type} : Val F → M Str
+  | .time _ u _ _ => pure u
+  | .num _ _ _ => throw Exc.TypeError
+  | .objArr _ _ => throw Exc.TypeError
+  | .memoryview => throw Exc.unmodelled
+  | _ => throw Exc.AttributeError
+
+/-- `np.timedelta64(k, unit)` -/
+def timedelta64 {F : Type} (k : Int) (unit : Str) : Val F := .time .td unit .scalar [k]
+
+/-- `a - b` on datetime64 / timedelta64 values: both sides are taken to the finer unit -/
+def sub {F : Type} (a b : Val F) : M (Val F) := do
+  match a, b with
+  | .time k1 u c1 xs, .time k2 v c2 ys =>
+    let k ← (match k1, k2 with
+      | .dt, .dt => pure TKind.td
+      | .td, .td => pure TKind.td
+      | .dt, .td => pure TKind.dt
+      | .td, .dt => throw Exc.TypeError : M TKind)
+    let w ← finer u v
+    let _ ← convTicks u w 0
+    let _ ← convTicks v w 0
+    let xs' ← xs.mapM (convTicks u w)
+    let ys' ← ys.mapM (convTicks v w)
+    let (c, ps) ← bcast c1 c2 xs' ys'
+    pure (.time k w c (ps.map fun p => p.1 - p.2))
+  | _, _ => throw Exc.unmodelled
+
+/-- `a / b` on timedelta64 values: both tick counts in the finer unit, converted to double, divided (float64) -/
+def div {F : Type} [FloatOps F] [FloatArith F] (a b : Val F) : M (Val F) := do
+  match a, b with
+  | .time .td u c1 xs, .time .td v c2 ys =>
+    let w ← finer u v
+    let _ ← convTicks u w 0
+    let _ ← convTicks v w 0
+    let xs' ← xs.mapM (convTicks u w)
+    let ys' ← ys.mapM (convTicks v w)
+    let (c, ps) ← bcast c1 c2 xs' ys'
+    pure (.num .f64 c (ps.map fun p => FloatArith.div (FloatOps.ofInt p.1 : F) (FloatOps.ofInt p.2)))
+  | _, _ => throw Exc.unmodelled
+
+/-- `a + b` on float64 values (numpy scalars / arrays, Python floats) -/
+def add {F : Type} [FloatArith F] (a b : Val F) : M (Val F) := do
+  match a, b with
+  | .pyfloat x, .pyfloat y => pure (.pyfloat (FloatArith.add x y))
+  | .num .f64 c xs, .pyfloat y => pure (.num .f64 (mkCont c.lazy c.shape) (xs.map fun x => FloatArith.add x y))
+  | .pyfloat x, .num .f64 c ys => pure (.num .f64 (mkCont c.lazy c.shape) (ys.map fun y => FloatArith.add x y))
+  | .num .f64 c1 xs, .num .f64 c2 ys =>
+    let (c, ps) ← bcast c1 c2 xs ys
+    pure (.num .f64 c (ps.map fun p => FloatArith.add p.1 p.2))
+  | _, _ => throw Exc.unmodelled
+
+/-- `type(t)(x)` / `t.__class__(x)`: a Python float or numpy float64 made from `x` (a Python float or a 0-d float64 array) -/
+def callType {F : Type} (t x : Val F) : M (Val F) := do
+  let y ← (match x with
+    | .pyfloat y => pure y
+    | .num .f64 .scalar [y] => pure y
+    | .num .f64 (.arr false []) [y] => pure y
+    | _ => throw Exc.unmodelled : M F)
+  match t with
+  | .pyfloat _ => pure (.pyfloat y)
+  | .num .f64 .scalar _ => pure (.num .f64 .scalar [y])
+  | _ => throw Exc.unmodelled
+
+/-- `x.data` -/
+def attrData {F : Type} : Val F → M (Val F)
+  | .pyint _ => throw Exc.AttributeError
+  | .pyfloat _ => throw Exc.AttributeError
+  | .datetime _ _ => throw Exc.AttributeError
+  | .time _ _ c _ => if c.lazy then throw Exc.AttributeError else pure .memoryview
+  | .num _ c _ => if c.lazy then throw Exc.AttributeError else pure .memoryview
+  | .objArr _ _ => pure .memoryview
+  | .memoryview => throw Exc.unmodelled
+
+/-- `np.asarray(x, like=t)` for a Python float `x`: a 0-d float64 array of the kind of `t` (numpy / dask); TypeError when
+    `t` does not implement `__array_function__` -/
+def asarrayLike {F : Type} (x t : Val F) : M (Val F) := do
+  let y ← (match x with
+    | .pyfloat y => pure y
+    | _ => throw Exc.unmodelled : M F)
+  match t with
+  | .time _ _ (.arr lazy _) _ => pure (.num .f64 (.arr lazy []) [y])
+  | .num _ (.arr lazy _) _ => pure (.num .f64 (.arr lazy []) [y])
+  | .objArr _ _ => pure (.num .f64 (.arr false []) [y])
+  | _ => throw Exc.TypeError
+
+end Np
 
 /-! ### objects with attributes that may be absent: a heap of slots with a trace of the loads and stores
 
